@@ -129,7 +129,7 @@ V: List[Tuple[str, str, str, str, Any, Any, Optional[str]]] = [
     ("C16", "extend False treated like True", "breaking", S + "component_media.py", "        elif media_extend is False:\n            bases = tuple()", "        elif media_extend is False:\n            bases = curr_cls.__bases__", "S3"),
     ("C16", "comment", "preserving", S + "component_media.py", "        if unresolved_bases:\n", "        if unresolved_bases:  # come back after the bases\n", None),
     # ---- C17
-    ("C17", "re.escape dropped", "breaking", S + "finders.py", "            re.compile(re.escape(p) + \"$\") if isinstance(p, str) else p\n            for p in app_settings.STATIC_FILES_ALLOWED", "            re.compile(p + \"$\") if isinstance(p, str) else p\n            for p in app_settings.STATIC_FILES_ALLOWED", "S1"),
+    ("C17", "re.escape dropped", "breaking", S + "finders.py", "            re.compile(re.escape(p) + r\"\\Z\") if isinstance(p, str) else p\n            for p in app_settings.STATIC_FILES_ALLOWED", "            re.compile(p + r\"\\Z\") if isinstance(p, str) else p\n            for p in app_settings.STATIC_FILES_ALLOWED", "S1"),
     ("C17", "or instead of and", "breaking", S + "finders.py", "        return any_regex_match(path, allowed_patterns) and no_regex_match(path, forbidden_patterns)", "        return any_regex_match(path, allowed_patterns) or no_regex_match(path, forbidden_patterns)", "S3"),
     ("C17", "filter removed from list()", "breaking", S + "finders.py", "                    if self._is_path_valid(path):\n                        yield path, storage", "                    if True:\n                        yield path, storage", "S2"),
     ("C17", "safe_join deleted", "breaking", S + "finders.py", "        abs_path = safe_join(root, path)\n", "        abs_path = os.path.join(root, path)\n", "S2"),
